@@ -24,6 +24,8 @@ use serde_json::{Value, json};
 struct Ctx {
     pub ctxv: i32,
     pub ctxw: i32,
+    /// the same value as a decimal string
+    pub ctxs: RotoString,
 }
 
 type Log = Arc<Mutex<Vec<(i32, i32)>>>;
@@ -162,6 +164,7 @@ fn main() {
             let mut ctx = Ctx {
                 ctxv: case["ctxv"].as_i64().unwrap() as i32,
                 ctxw: case["ctxv"].as_i64().unwrap() as i32,
+                ctxs: RotoString::from(case["ctxv"].as_i64().unwrap().to_string()),
             };
             run_case!(case, prog, rt, &log, |f, a| f.call(&mut ctx, a), |g| g.call(&mut ctx))
         } else {
